@@ -14,7 +14,8 @@ left to the harness:
     `unbound_required_in_table`, `camel_eq_json`                      required-field defaults
   * `numeric_enum_switch`                                             `$alt` iff numeric enums
   * `no_binding_refuses`, `refuses_iff`, `no_binding_iff`             NotImplementedError rule
-  * `*_counterexample`                                                inputs on which the real code violates the statement
+  * `*_counterexample`                                                inputs on which the real code still violates the statement
+  * `*_regression`, `fixBody_eq_fixSeg`                               the defects repaired by 151ee10, 3aedaba stay repaired
 -/
 namespace GapicModel.Props.C04
 open GapicModel.Model.Http GapicModel.Model.Rest
@@ -691,14 +692,14 @@ theorem unbound_required_in_table (m : MethodD) (b : HttpRule) (hag : Agree m b)
   (hag _ (List.mem_map.mpr ⟨f, hf, rfl⟩)).mpr hu
 
 /-- **the table is right about the primary binding** as long as (i) the two readings of the
-template agree on its top-level variables (`path_params`' `\{(\w+)…\}` on the raw text vs
-`_VARIABLE_RE` on the rewritten text — true for well-formed templates without reserved names, see
-the examples; false for `{class=…}`, see `reserved_path_field_counterexample`) and (ii) the body
-name needed no rewriting. -/
+template agree on its top-level variables (`path_params`' `\{(\w+)…\}` on the raw text, names then
+disambiguated, vs `_VARIABLE_RE` on the rewritten text — true for well-formed templates, reserved
+names included since 151ee10, see the examples and `reserved_path_field_regression`) and (ii) the
+body name needed no rewriting. -/
 theorem agree_primary (m : MethodD) (b : HttpRule) (p : Str)
-    (hp : m.http.pattern = some p) (hc : p ≠ "custom".toList)
+    (hp : m.http.pattern = some p) (hc : p ≠ ['c', 'u', 's', 't', 'o', 'm'])
     (hb : b.body = if m.http.body = [] then none else some m.http.body)
-    (hvars : ∀ n ∈ rtNames m, [n] ∈ varPaths (scan b.uri) ↔ n ∈ pathParams m.http.uri) :
+    (hvars : ∀ n ∈ rtNames m, [n] ∈ varPaths (scan b.uri) ↔ n ∈ (pathParams m.http.uri).map fixSeg) :
     Agree m b := by
   intro n hn
   unfold queryParams httpOpt Unbound
@@ -733,8 +734,8 @@ theorem selects_query_subset (b : HttpRule) (msg : Msg) (t : Transcoded) (h : Se
 required field being itself called `$alt`) -/
 theorem numeric_enum_switch (tr : Transcode) (htr : TranscodeSpec tr) (m : MethodD) (numeric : Bool) (req : Msg) (w : Wire)
     (h : restCall tr m numeric req = .ok w)
-    (hreq : ∀ l ∈ req, l.path.map (fun s => toJsonName (fixSeg s)) ≠ ["$alt".toList])
-    (hfld : ∀ f ∈ m.fields, camelKey (fixSeg f.name) ≠ "$alt".toList) :
+    (hreq : ∀ l ∈ req, l.path.map (fun s => toJsonName (fixSeg s)) ≠ [['$', 'a', 'l', 't']])
+    (hfld : ∀ f ∈ m.fields, camelKey (fixSeg f.name) ≠ ['$', 'a', 'l', 't']) :
     altLeaf ∈ w.query ↔ numeric = true := by
   obtain ⟨_, t, ht, _, _, hq, _⟩ := restCall_ok tr m numeric req w h
   obtain ⟨b, _, hsel⟩ := htr _ _ _ ht
@@ -797,7 +798,7 @@ theorem refuses_iff (tr : Transcode) (m : MethodD) (numeric : Bool) (req : Msg) 
 /-- which annotations give no binding: every rule is absent, `custom`, or has an empty path -/
 theorem no_binding_iff (m : MethodD) :
     httpOptions m = [] ↔ ∀ r ∈ m.http :: m.additional,
-      r.pattern = none ∨ r.pattern = some "custom".toList ∨ r.uri = [] := by
+      r.pattern = none ∨ r.pattern = some ['c', 'u', 's', 't', 'o', 'm'] ∨ r.uri = [] := by
   unfold httpOptions
   rw [List.filterMap_eq_nil_iff]
   constructor
@@ -822,10 +823,15 @@ theorem no_binding_iff (m : MethodD) :
       | some p => simp [h1]
 
 
-/-! ## Concrete instances: non-vacuity, and the inputs on which the real code violates the statement -/
+/-! ## Concrete instances: non-vacuity, regression inputs of the repaired defects, and the inputs on which
+the real code still violates the statement -/
 section Examples
 
-local notation "§" x => String.toList x
+/-- `§"abc"` is the explicit character list `['a', 'b', 'c']` (no `String.toList` for the kernel to evaluate) -/
+local macro "§" s:str : term => do
+  let elems := s.getString.toList.toArray.map fun c => Lean.Syntax.mkCharLit c
+  `([$elems,*])
+
 deriving instance DecidableEq for Except
 
 instance : Decidable (LowerSnake s) := by unfold LowerSnake; infer_instance
@@ -855,7 +861,7 @@ example : restCall (refTranscode (rtNames mUpdate)) mUpdate false reqUpdate =
 /-- hypotheses of `agree_primary`, `numeric_enum_switch`, `required_default_present`, `uri_rewrite_invertible` are met -/
 example : Agree mUpdate ⟨§"patch", §"/v1/{book.name=shelves/*/books/*}", some (§"book")⟩ := by decide +kernel
 example : ∀ n ∈ rtNames mUpdate, [n] ∈ varPaths (scan (§"/v1/{book.name=shelves/*/books/*}")) ↔
-    n ∈ pathParams mUpdate.http.uri := by decide +kernel
+    n ∈ (pathParams mUpdate.http.uri).map fixSeg := by decide +kernel
 example : ∀ l ∈ reqUpdate, l.path.map (fun s => toJsonName (fixSeg s)) ≠ [§"$alt"] := by decide +kernel
 example : ∀ f ∈ mUpdate.fields, camelKey (fixSeg f.name) ≠ (§"$alt") := by decide +kernel
 example : (§"force") ∈ queryParams mUpdate ∧ LowerSnake (§"force") ∧ LowerSnake (§"update_mask") := by decide +kernel
@@ -874,7 +880,7 @@ example : fixSeg (§"class") = fixSeg (§"class_") ∧ Presuffixed (§"class_") 
 example : httpOptions ⟨⟨none, [], []⟩, [], [], false⟩ = [] := by decide +kernel
 example : httpOptions ⟨⟨some (§"custom"), §"/v1/x", []⟩, [], [], false⟩ = [] := by decide +kernel
 
-/-! ### §9-F11: a required field bound only by an ADDITIONAL binding -/
+/-! ### §9-F11 (OPEN): a required field bound only by an ADDITIONAL binding -/
 
 def mArchive : MethodD :=
   { http := ⟨some (§"get"), §"/v1/{name=archives/*}", []⟩,
@@ -890,32 +896,46 @@ theorem additional_binding_counterexample :
     ¬ Agree mArchive ⟨§"get", §"/v1/archives/{alt}", none⟩ ∧
     (§"alt") ∈ addedFields mArchive [] ∧ ¬ Unbound ⟨§"get", §"/v1/archives/{alt}", none⟩ (§"alt") := by decide +kernel
 
-/-! ### a required field with a reserved name bound by the PRIMARY binding -/
+/-! ### repaired by 151ee10: a required field with a reserved name bound by the PRIMARY binding -/
 
 def mClass : MethodD :=
   { http := ⟨some (§"get"), §"/v1/{class=classes/*}", []⟩, additional := [],
-    fields := [⟨§"class", .str, false, true⟩], clientStreaming := false }
+    fields := [⟨§"class", .str, false, true⟩, ⟨§"format", .str, false, true⟩], clientStreaming := false }
 
-/-- `query_params` compares the disambiguated field name `class_` with the raw variable `class`:
-`GET /v1/classes/7?class=` -/
-theorem reserved_path_field_counterexample :
+/-- `GET /v1/classes/7?format=`: `class` travels in the path only (it used to be sent again as `class=`),
+the generator's table agrees with the binding, and the unbound reserved-name field `format` still gets
+its default under its JSON name -/
+theorem reserved_path_field_regression :
     restCall (refTranscode (rtNames mClass)) mClass false [⟨[§"class"], [.plain (§"classes/7")]⟩] =
-      .ok ⟨§"get", §"/v1/classes/7", none, [⟨[§"class"], [[]]⟩]⟩ ∧
-    ¬ Agree mClass ⟨§"get", §"/v1/{class_=classes/*}", none⟩ ∧
-    pathParams mClass.http.uri = [§"class"] ∧
-    varPaths (scan (convertUri mClass.http.uri)) = [[§"class_"]] := by decide +kernel
+      .ok ⟨§"get", §"/v1/classes/7", none, [⟨[§"format"], [[]]⟩]⟩ ∧
+    Agree mClass ⟨§"get", §"/v1/{class_=classes/*}", none⟩ ∧
+    (∀ n ∈ rtNames mClass, [n] ∈ varPaths (scan (convertUri mClass.http.uri)) ↔
+      n ∈ (pathParams mClass.http.uri).map fixSeg) := by decide +kernel
 
-/-! ### the default of a required `bytes` field is the text `b''` -/
+/-! ### OPEN: the default of a required `bytes` field is the text `b''`; a required REPEATED field is
+defaulted like a singular one (a repair was withdrawn: it broke the emitted unit tests) -/
 
 def mBlob : MethodD :=
   { http := ⟨some (§"get"), §"/v1/{name=things/*}", []⟩, additional := [],
     fields := [⟨§"name", .str, false, true⟩, ⟨§"blob", .bytes, false, true⟩], clientStreaming := false }
 
+/-- `GET /v1/things/1?blob=b''`: the Python repr of empty bytes, not base64 -/
 theorem bytes_default_counterexample :
     restCall (refTranscode (rtNames mBlob)) mBlob false [⟨[§"name"], [.plain (§"things/1")]⟩] =
       .ok ⟨§"get", §"/v1/things/1", none, [⟨[§"blob"], [§"b''"]⟩]⟩ := by decide +kernel
 
-/-! ### whether a body is sent is decided from the PRIMARY binding -/
+def mTags : MethodD :=
+  { http := ⟨some (§"get"), §"/v1/{name=things/*}", []⟩, additional := [],
+    fields := [⟨§"name", .str, false, true⟩, ⟨§"tags", .str, true, true⟩], clientStreaming := false }
+
+/-- `GET /v1/things/1?tags=`: an unset required repeated field travels as ONE default element, which a
+server reads as a one-element list -/
+theorem repeated_default_counterexample :
+    restCall (refTranscode (rtNames mTags)) mTags false [⟨[§"name"], [.plain (§"things/1")]⟩] =
+      .ok ⟨§"get", §"/v1/things/1", none, [⟨[§"tags"], [[]]⟩]⟩ ∧
+    flattenQuery [⟨[§"tags"], [[]]⟩] = [(§"tags", [])] := by decide +kernel
+
+/-! ### OPEN: whether a body is sent is decided from the PRIMARY binding -/
 
 def mBody1 : MethodD :=
   { http := ⟨some (§"post"), §"/v1/{name=things/*}", §"book"⟩,
@@ -939,10 +959,23 @@ theorem body_lost_counterexample :
     refTranscode (rtNames mBody2) (httpOptions mBody2) (rtMsg reqBody) =
       some ⟨§"post", §"/v1/other/m", some [⟨[§"title"], [.plain (§"x")]⟩], []⟩ := by decide +kernel
 
-/-- `fixBody` does not suffix the one reserved word that ends in an underscore, `Field.name` does -/
-theorem body_rename_counterexample :
-    fixBody (§"__peg_parser__") = some (§"__peg_parser__") ∧ fixSeg (§"__peg_parser__") = (§"__peg_parser___") := by decide +kernel
+/-! ### repaired by 3aedaba: the body is renamed exactly like the field -/
+
+/-- **a named body always refers to the emitted field**: `try_parse_http_rule` and `Field.name` rename alike
+(also for `__peg_parser__`, the reserved word that ends in an underscore) -/
+theorem fixBody_eq_fixSeg (b : Str) (h : b ≠ []) : fixBody b = some (fixSeg b) := by
+  unfold fixBody fixSeg
+  simp only [h, if_false]
+  split <;> rfl
+
+def mPeg : MethodD :=
+  { http := ⟨some (§"post"), §"/v1/things/{id}", §"__peg_parser__"⟩, additional := [],
+    fields := [⟨§"id", .str, false, false⟩, ⟨§"__peg_parser__", .msg, false, false⟩], clientStreaming := false }
+
+theorem body_rename_regression :
+    restCall (refTranscode (rtNames mPeg)) mPeg false
+        [⟨[§"id"], [.plain (§"7")]⟩, ⟨[§"__peg_parser__", §"title"], [.plain (§"t")]⟩] =
+      .ok ⟨§"post", §"/v1/things/7", some [⟨[§"title"], [§"t"]⟩], []⟩ := by decide +kernel
 
 end Examples
-
 end GapicModel.Props.C04
